@@ -108,7 +108,8 @@ def infinite(cx, n=2, which="both"):
         tl, tu = torch.atan(xlt), torch.atan(xut)
         half = (tu - tl) * 0.5
         mid = (tu + tl) * 0.5
-        for i in range(n):
+        cx.claim_true("n evaluations after the probe", len(rec.calls) == n + 1, detail=str(len(rec.calls)))
+        for i in range(min(n, len(rec.calls) - 1)):
             t = half * float(xi[i]) + mid
             cx.claim_eq("node %d = tan(affine image in t)" % i, rec.calls[i + 1].reshape(-1), torch.tan(t).reshape(-1))
             sec = 1. / torch.cos(t)
